@@ -457,6 +457,9 @@ func (s *nodePrivilegedService) FindMissingMessages(ctx context.Context, req *no
 	emitterAddress := vaa.Address{}
 	copy(emitterAddress[:], b)
 
+	if req.EmitterChain > math.MaxUint16 || req.TargetChain > math.MaxUint16 {
+		return nil, status.Errorf(codes.InvalidArgument, "chain id out of range: %d / %d", req.EmitterChain, req.TargetChain)
+	}
 	emitterChain := vaa.ChainID(req.EmitterChain)
 	targetChain := vaa.ChainID(req.TargetChain)
 	ids, first, last, err := s.db.FindEmitterSequenceGap(vaa.VAAID{
